@@ -514,6 +514,8 @@ class Duration(Artifact):
         minute, hour, day, night, week, month, year
         """
         super().__init__()
+        # compare and hash by value, like Time and Interval (not by character span)
+        self._attrs = ["value", "unit"]
         self.value = value
         self.unit = unit
 
